@@ -161,8 +161,9 @@ theorem step_F0 (c : Cfg) (s : St) :
 
 /-! ## oversize sysex -/
 
-/-- tokens that may occur between `F0` and `F7` of one sysex: data bytes, real-time bytes, clock ticks -/
-def SysexBodyTok : Tok → Prop
+/-- tokens between two (non-real-time) status bytes, e.g. between `F0` and `F7` of one sysex: data bytes,
+    real-time bytes, clock ticks -/
+def NonStatusTok : Tok → Prop
   | .byte b => b < 0x80 ∨ 0xF8 ≤ b
   | .tick _ => True
 
@@ -180,7 +181,7 @@ def rtBytes : List Tok → List Nat
 
 /-- inside a sysex whose remaining data bytes no longer fit, the buffer can only end dropped or full;
     the only frames are the interleaved real-time bytes -/
-theorem feed_sysex_body (c : Cfg) (body : List Tok) (s : St) (hbody : ∀ t ∈ body, SysexBodyTok t)
+theorem feed_sysex_body (c : Cfg) (body : List Tok) (s : St) (hbody : ∀ t ∈ body, NonStatusTok t)
     (hm : s.mode = .sysex)
     (hfull : c.sysex = true → s.sx ≠ [] → c.bufSize ≤ s.sx.length + dataCount body) :
     (feed c s body).1.mode = .sysex ∧
@@ -189,7 +190,7 @@ theorem feed_sysex_body (c : Cfg) (body : List Tok) (s : St) (hbody : ∀ t ∈ 
   induction body generalizing s with
   | nil => exact ⟨hm, by simpa [feed, dataCount] using hfull, rfl⟩
   | cons t r ih =>
-    have hr : ∀ t ∈ r, SysexBodyTok t := fun x hx => hbody x (by simp [hx])
+    have hr : ∀ t ∈ r, NonStatusTok t := fun x hx => hbody x (by simp [hx])
     cases t with
     | tick d =>
       have := ih { s with ts := s.ts + d } hr hm (by simpa [dataCount] using hfull)
@@ -225,7 +226,7 @@ theorem feed_sysex_body (c : Cfg) (body : List Tok) (s : St) (hbody : ∀ t ∈ 
           exact ih s hr hm (fun h1 h2 => absurd ⟨h1, h2⟩ hc)
 
 /-- `F0 body F7` with more data bytes than fit the buffer: no sysex frame, whatever the state before -/
-theorem feed_oversize_sysex (c : Cfg) (s : St) (body : List Tok) (hbody : ∀ t ∈ body, SysexBodyTok t)
+theorem feed_oversize_sysex (c : Cfg) (s : St) (body : List Tok) (hbody : ∀ t ∈ body, NonStatusTok t)
     (hover : c.bufSize < dataCount body + 2) :
     (feed c s (.byte 0xF0 :: body ++ [.byte 0xF7])).2.map Prod.fst = (rtBytes body).map (fun r => [r]) ∧
     (feed c s (.byte 0xF0 :: body ++ [.byte 0xF7])).1.mode = .clean ∧
@@ -243,5 +244,189 @@ theorem feed_oversize_sysex (c : Cfg) (s : St) (body : List Tok) (hbody : ∀ t 
   simp only [feed, stepTok, f0, List.nil_append, feed_append, h7, List.append_nil]
   simp only [sysexStep, if_neg (show ¬ (0xF7 : Nat) = 0xF0 by omega), if_true, if_neg hno, List.append_nil]
   exact ⟨hfr, trivial, trivial⟩
+
+/-! ## data bytes (with real-time bytes and ticks in between) that are ignored -/
+
+theorem feed_unknown_body (c : Cfg) (body : List Tok) (s : St) (hbody : ∀ t ∈ body, NonStatusTok t)
+    (hm : s.mode = .unknown) :
+    (feed c s body).1.mode = .unknown ∧ (feed c s body).1.status = s.status ∧ (feed c s body).1.pend = s.pend ∧
+    (feed c s body).2.map Prod.fst = (rtBytes body).map (fun r => [r]) := by
+  induction body generalizing s with
+  | nil => exact ⟨hm, rfl, rfl, rfl⟩
+  | cons t r ih =>
+    have hr : ∀ t ∈ r, NonStatusTok t := fun x hx => hbody x (by simp [hx])
+    cases t with
+    | tick d =>
+      have := ih { s with ts := s.ts + d } hr hm
+      simpa [feed, stepTok, rtBytes] using this
+    | byte b =>
+      have hb : b < 0x80 ∨ 0xF8 ≤ b := hbody (.byte b) (by simp)
+      by_cases hrt : 0xF8 ≤ b
+      · have h1 := step_rt c s b hrt
+        have := ih s hr hm
+        simp only [feed, stepTok, h1, rtBytes, if_pos hrt, List.map_cons, List.cons_append, List.nil_append]
+        exact ⟨this.1, this.2.1, this.2.2.1, by rw [this.2.2.2]⟩
+      · have h1 := step_unknown_data c s b hm (by omega)
+        have := ih s hr hm
+        simp only [feed, stepTok, h1, rtBytes, if_neg hrt, List.nil_append]
+        exact this
+
+theorem feed_no_status_body (c : Cfg) (body : List Tok) (s : St) (hbody : ∀ t ∈ body, NonStatusTok t)
+    (hm : s.mode = .clean) (hs : s.status = 0) :
+    (feed c s body).1.mode = .clean ∧ (feed c s body).1.status = 0 ∧ (feed c s body).1.pend = s.pend ∧
+    (feed c s body).2.map Prod.fst = (rtBytes body).map (fun r => [r]) := by
+  induction body generalizing s with
+  | nil => exact ⟨hm, hs, rfl, rfl⟩
+  | cons t r ih =>
+    have hr : ∀ t ∈ r, NonStatusTok t := fun x hx => hbody x (by simp [hx])
+    cases t with
+    | tick d =>
+      have := ih { s with ts := s.ts + d } hr hm hs
+      simpa [feed, stepTok, rtBytes] using this
+    | byte b =>
+      have hb : b < 0x80 ∨ 0xF8 ≤ b := hbody (.byte b) (by simp)
+      by_cases hrt : 0xF8 ≤ b
+      · have h1 := step_rt c s b hrt
+        have := ih s hr hm hs
+        simp only [feed, stepTok, h1, rtBytes, if_pos hrt, List.map_cons, List.cons_append, List.nil_append]
+        exact ⟨this.1, this.2.1, this.2.2.1, by rw [this.2.2.2]⟩
+      · have h1 := step_data_no_status c s b hm hs (by omega)
+        have := ih s hr hm hs
+        simp only [feed, stepTok, h1, rtBytes, if_neg hrt, List.nil_append]
+        exact this
+
+/-! ## single-byte frames are real-time bytes of the input -/
+
+theorem withinChan_len (s : St) (b : Nat) : ∀ f ∈ (withinChan s b).2, f.1.length = 3 := by
+  unfold withinChan
+  split
+  · intro f hf; simp at hf; subst hf; rfl
+  · split
+    · split
+      · intro f hf; simp at hf; subst hf; rfl
+      · intro f hf; simp at hf
+    · intro f hf; simp at hf
+
+theorem cleanState_len (s : St) (b : Nat) : ∀ f ∈ (cleanState s b).2, f.1.length = 3 := by
+  unfold cleanState
+  split
+  · intro f hf; simp at hf
+  · split
+    · intro f hf; simp at hf; subst hf; rfl
+    · split
+      · split
+        · intro f hf; simp at hf
+        · split
+          · intro f hf; simp at hf; subst hf; rfl
+          · intro f hf; simp at hf
+      · split
+        · intro f hf; simp at hf
+        · split
+          · exact withinChan_len _ b
+          · intro f hf; simp at hf
+
+theorem syscStep_len (s : St) (b : Nat) : ∀ f ∈ (syscStep s b).2, f.1.length = 3 := by
+  unfold syscStep
+  split
+  · intro f hf; simp at hf; subst hf; rfl
+  · split
+    · split
+      · intro f hf; simp at hf; subst hf; rfl
+      · intro f hf; simp at hf
+    · intro f hf; simp at hf
+
+theorem sysexStep_len (c : Cfg) (s : St) (b : Nat) : ∀ f ∈ (sysexStep c s b).2, 2 ≤ f.1.length := by
+  unfold sysexStep
+  split
+  · intro f hf; simp at hf
+  · split
+    · intro f hf
+      split at hf
+      · next hc =>
+        simp at hf; subst hf
+        have : s.sx.length ≠ 0 := fun h => hc.2.1 (List.length_eq_zero_iff.mp h)
+        simp only [List.length_append, List.length_cons, List.length_nil]; omega
+      · simp at hf
+    · split
+      · intro f hf; have := cleanState_len _ b f hf; omega
+      · split
+        · split <;> (intro f hf; simp at hf)
+        · intro f hf; simp at hf
+
+theorem step_len (c : Cfg) (s : St) (b : Nat) (hb : b < 0xF8) : ∀ f ∈ (step c s b).2, 2 ≤ f.1.length := by
+  have h3 : ∀ l : List Frame, (∀ f ∈ l, f.1.length = 3) → ∀ f ∈ l, 2 ≤ f.1.length :=
+    fun l h f hf => by have := h f hf; omega
+  cases hm : s.mode with
+  | sysex => rw [step_sysex c s b hb hm]; exact sysexStep_len c s b
+  | clean => rw [step_clean c s b hb hm]; exact h3 _ (cleanState_len s b)
+  | unknown =>
+    rw [step_unknown c s b hb hm]
+    split
+    · exact h3 _ (cleanState_len _ b)
+    · intro f hf; simp at hf
+  | sysc =>
+    rw [step_sysc c s b hb hm]
+    split
+    · exact h3 _ (cleanState_len _ b)
+    · exact h3 _ (syscStep_len s b)
+  | chan =>
+    rw [step_chan c s b hb hm]
+    split
+    · exact h3 _ (cleanState_len _ b)
+    · exact h3 _ (withinChan_len s b)
+
+/-- a one-byte frame is a byte of the input (a real-time byte handed on) -/
+theorem feed_single_mem (c : Cfg) (toks : List Tok) (s : St) :
+    ∀ f ∈ (feed c s toks).2, ∀ r, f.1 = [r] → Tok.byte r ∈ toks := by
+  induction toks generalizing s with
+  | nil => intro f hf; simp [feed] at hf
+  | cons t ts ih =>
+    intro f hf r hr
+    simp only [feed] at hf
+    rcases List.mem_append.mp hf with h | h
+    · cases t with
+      | tick d => simp [stepTok] at h
+      | byte b =>
+        simp only [stepTok] at h
+        by_cases hrt : 0xF8 ≤ b
+        · rw [step_rt c s b hrt] at h
+          simp at h; subst h
+          simp only [List.cons.injEq, and_true] at hr; subst hr
+          simp
+        · have := step_len c s b (by omega) f h
+          rw [hr] at this; simp at this
+    · exact List.mem_cons_of_mem _ (ih _ f h r hr)
+
+/-- if the input consists of bytes (`< 256`), so does every delivered message -/
+theorem listen_bytes (c : Cfg) (toks : List Tok) (s : St) (hi : Inv c s) (hb : ∀ b, Tok.byte b ∈ toks → b < 256) :
+    ∀ m ∈ listenFrames c (feed c s toks).2, ∀ bs, m.1 = some bs → ∀ x ∈ bs, x < 256 := by
+  intro m hm bs hbs x hx
+  obtain ⟨f, hf, _, hr, _⟩ := (mem_listenFrames c _ m).mp hm
+  have hw := (feed_inv c toks s hi).2 f hf
+  rcases retype_wf c f hw with ⟨_, hn⟩ | ⟨_, bs', hbs', hwm, hh⟩
+  · rw [hn] at hr; cases hr
+  · rw [hbs', hbs] at hr
+    have e : bs' = bs := Option.some.inj (Option.some.inj hr)
+    subst e
+    rcases hwm with ⟨st, d1, d2, rfl, hs, h1, h2⟩ | ⟨st, d, rfl, hs1, hs2, h1⟩ | ⟨d, rfl, h1⟩ | ⟨d1, d2, rfl, h1, h2⟩ |
+        ⟨d, rfl, h1⟩ | rfl | ⟨b, rfl, hb8⟩ | ⟨d, rfl, hd, _⟩
+    · simp at hx; omega
+    · simp at hx; omega
+    · simp at hx; omega
+    · simp at hx; omega
+    · simp at hx; omega
+    · simp at hx; omega
+    · simp only [List.mem_cons, List.not_mem_nil, or_false] at hx; subst hx
+      have hf1 : f.1 = [x] := by
+        rcases hw with ⟨b', e, _⟩ | ⟨st, d1, d2, e, _, _, hst⟩ | ⟨_, d, e, _⟩
+        · rw [e] at hh ⊢; simp at hh; rw [hh]
+        · rw [e] at hh; simp at hh; omega
+        · rw [e] at hh; simp at hh; omega
+      exact hb x (feed_single_mem c toks s f hf x hf1)
+    · simp at hx
+      rcases hx with rfl | hx | rfl
+      · omega
+      · have := hd x hx; omega
+      · omega
 
 end Midi.Live
